@@ -75,3 +75,53 @@ Example C05_fblock_req :
   /\ from_dict_e {| cs_name := "K"; cs_fields := [f_req; f_ex]; cs_forbid_extra := false; cs_discr_keys := []; cs_pre := None; cs_post := None |}
        (VStr "abc") = Exn XValueError.
 Proof. repeat split; reflexivity. Qed.
+
+(* ---------------------------------------------------------------- the frame around the blocks (kernel K105b) *)
+From Verif Require Import FrameEmit K105bProofs.
+From VerifGen Require Import K105b.
+
+(* the emitted try frame (extra-keys check / d.keys touch / blocks) with the emitted handler is the body of the model *)
+Theorem C05_frame_emitted : forall c d,
+  run_frame (cs_name c) d (allowed_keys c) (run_blocks (cs_name c) d (cs_fields c))
+            (frame_try (cs_forbid_extra c) (is_nil (cs_fields c))) frame_handler
+  = body_e c d.
+Proof. exact frame_body_e. Qed.
+Print Assumptions C05_frame_emitted.
+
+(* the allowed keys the generator computes from (name, alias) of the init fields, the discriminator field and
+   allow_deserialization_not_by_alias are exactly the keys the model allows *)
+Theorem C05_allowed_keys_emitted : forall nba ff discr c,
+  keys_agree nba ff (cs_fields c) -> cs_discr_keys c = olist discr ->
+  forall k, In k (allowed_keys_k ff discr nba) <-> In k (allowed_keys c).
+Proof. exact allowed_keys_k_members. Qed.
+Print Assumptions C05_allowed_keys_emitted.
+
+(* the generated from_dict assembled from the three translated pieces is Errs.from_dict *)
+Theorem C05_program_emitted : forall nba ff discr c d,
+  keys_agree nba ff (cs_fields c) -> cs_discr_keys c = olist discr ->
+  from_dict_k nba ff discr c d = from_dict c d.
+Proof. exact from_dict_k_from_dict. Qed.
+Print Assumptions C05_program_emitted.
+
+(* ExtraKeysError carries exactly the unexpected keys, on the emitted program *)
+Theorem C05_program_extra_exact : forall nba ff discr c kvs,
+  keys_agree nba ff (cs_fields c) -> cs_discr_keys c = olist discr ->
+  plain c -> cs_forbid_extra c = true -> extra_keys c kvs <> [] ->
+  from_dict_k nba ff discr c (VDict kvs) = Exn (XExtraKeys (extra_keys c kvs) (cs_name c)).
+Proof.
+  intros nba ff discr c kvs Hk Hd Hp Hf Hx. rewrite (from_dict_k_from_dict nba ff discr c _ Hk Hd).
+  exact (extra_exact c kvs Hp Hf Hx).
+Qed.
+Print Assumptions C05_program_extra_exact.
+
+Example C05_frame_ex :
+  frame_try true false = [RKeys; RForbidden; RIfForbiddenRaise; RBlocks]
+  /\ frame_try false true = [RTouch; RBlocks]
+  /\ allowed_keys_k [("x", None); ("e", Some "ee")] (Some "type") true = ["x"; "ee"; "type"; "x"; "e"]
+  /\ from_dict_k true [("x", None); ("e", Some "ee")] None
+       {| cs_name := "K"; cs_fields := [f_req; f_ex]; cs_forbid_extra := true; cs_discr_keys := []; cs_pre := None; cs_post := None |}
+       (VDict [(VStr "x", VInt 1); (VStr "zz", VInt 2); (VStr "e", VNone)]) = Exn (XExtraKeys [VStr "zz"] "K")
+  /\ from_dict_k true [] None
+       {| cs_name := "K0"; cs_fields := []; cs_forbid_extra := false; cs_discr_keys := []; cs_pre := None; cs_post := None |}
+       (VInt 5) = Exn XValueError.
+Proof. repeat split; reflexivity. Qed.
